@@ -159,5 +159,27 @@ func enumWide(tier string, shard, nshards int, yield func(HistCase) bool) (bool,
 			}
 		}
 	}
-	return false, "wide nodes: single nodes of 127/128/129/255/256/300 entries (bf 255, user keys of layer 0) x both formats x int and boundary-length string values, persisted, reloaded and modified; and inner (top) nodes of 124-130 entries with mostly nil child slots (bf 16), shrunk one top key at a time across the 128 boundary"
+	// one persist that writes several megabytes: 170 entries with 16-20 kB values (nodes of ~300 kB each)
+	for _, format := range core.Formats {
+		i++
+		if i%nshards != shard {
+			continue
+		}
+		layers := make([]uint8, 180)
+		for k := range layers {
+			if k%16 == 7 {
+				layers[k] = 1
+			}
+		}
+		cfg := core.Config{BF: 16, Format: format, Key: core.KLK, Val: core.VLong, Cache: "none", Marshaler: "json", LKLayers: layers}
+		var fill []core.Op
+		for k := 0; k < 170; k++ {
+			fill = append(fill, core.Op{Kind: core.OpInsert, K: k, V: 5 + k%2}) // value numbers 5 and 6: 16384 and 20000 bytes
+		}
+		prog := []core.Op{{Kind: core.OpPersist}, {Kind: core.OpReload}, {Kind: core.OpIter}, {Kind: core.OpInsertNew, K: 3, V: 6}, {Kind: core.OpDelete, K: 9}, {Kind: core.OpPersist}, {Kind: core.OpReload, N: 1}, {Kind: core.OpIter}}
+		if !yield(HistCase{Cfg: cfg, Fill: fill, Prog: prog}) {
+			return false, ""
+		}
+	}
+	return false, "one persist of ~3 MB (170 entries with 16-20 kB values); wide nodes: single nodes of 127/128/129/255/256/300 entries (bf 255, user keys of layer 0) x both formats x int and boundary-length string values, persisted, reloaded and modified; and inner (top) nodes of 124-130 entries with mostly nil child slots (bf 16), shrunk one top key at a time across the 128 boundary"
 }
